@@ -11,7 +11,7 @@ RULE = ("small trees with every consulted file assigned owner in {0, 1234}, grou
         "distinct by scenario")
 
 def gen(rng, tier):
-    n = 1200 if tier == "quick" else 15000
+    n = 1200 if tier == "quick" else 40000
     out = []
     for _ in range(n):
         rel = rng.random() < 0.35
